@@ -319,7 +319,11 @@ def analyse(args):
         # discharge: entry by entry through the division-free normal form, then the general solver
         from symx import ratnorm
         bad = None
+        budget = float(os.environ.get('VERIF_C01_PROGRAM_BUDGET_S', '600' if os.environ.get('VERIF_TIER') == 'thorough' else '150'))
         for q, wh in zip(neqs, where):
+            if time.time() - t0 > budget:
+                # wall budget per program: the remaining entries stay undecided (never counted as holding)
+                out['queries']['unknown'] += 1; out['detail'] = 'per-program wall budget of %g s exhausted' % budget; break
             F, divs = ratnorm.clear([q])
             g = z3.Goal(); g.add(*(F + [dd != 0 for dd in divs]))
             t1 = time.time()
@@ -509,7 +513,7 @@ def main():
     run.assumptions += ['doubles as reals; divisions are cleared (inputs with a vanishing divisor, e.g. det J = 0, are outside the claim)',
                         'step (A) original = finalised is C06; this check covers step (B) generated code = finalised form, and the number of nodes per span',
                         'coordinate convention: parametric coordinate c (x = 0) <-> knot-vector axis d-1-c; field Jacobians/Hessians in coordinate order']
-    run.out_of_scope += ['that gcc/Cython/the loader accept the generated module (exercised only by the replay of violations)', 'boundary and surface forms, derivatives of physical input fields (listed as unsupported, not counted)',
+    run.out_of_scope += ['random programs that the solver does not decide within its budget are listed (undecided_random_programs) and not counted', 'that gcc/Cython/the loader accept the generated module (exercised only by the replay of violations)', 'boundary and surface forms, derivatives of physical input fields (listed as unsupported, not counted)',
                          'on-demand (bbox) variants', 'rounding, -ffast-math']
     corpus = [['corpus', name] for name, _ in gen.corpus(vf)]
     ngram = 60 if not thorough else 600
@@ -518,6 +522,7 @@ def main():
     jobs = [(spec, (k % 3), None) for k, spec in enumerate(progs)]
     # every two-space form also on the other space configurations
     import multiprocessing as mp
+    os.environ['VERIF_TIER'] = run.tier          # (the workers read their per-program wall budget from it)
     with mp.get_context('fork').Pool(12 if thorough else 8) as pool:
         results = pool.map(analyse, jobs, chunksize=2)
     counts = {}
@@ -525,6 +530,11 @@ def main():
     for r in results:
         st = r.get('status', 'harness-error')
         counts[st] = counts.get(st, 0) + 1
+        if st == 'undecided' and r['spec'][0] == 'rand':
+            # a program of the seeded random sample that the solver did not decide in its budget: listed in the evidence, not counted, not a verdict
+            # (the fixed corpus is different: an undecided corpus program makes the run inconclusive)
+            run.extra.setdefault('undecided_random_programs', []).append({'program': r['spec'], 'desc': r.get('desc', '')[:120]})
+            continue
         if st in ('holds', 'violation', 'undecided'):
             programs += 1
             run.record_queries('generated-code-vs-finalised-form', {('%s/%d' % (r['spec'], k)): v for k, v in enumerate(sum(([a] * n for a, n in r['queries'].items()), []))} if False else
